@@ -70,6 +70,26 @@ impl Heap {
         }
     }
 
+    /// The closure objects whose upvalue vectors the given pointers point into.
+    /// A call frame that runs a closure keeps only such a pointer (plus the closure's inner
+    /// function); the collector uses this to keep the closure object of a running frame alive.
+    pub fn closures_owning_upvalues(&self, upvalue_ptrs: &[*const GcRef]) -> Vec<GcRef> {
+        let mut owners = Vec::new();
+        if upvalue_ptrs.is_empty() {
+            return owners;
+        }
+        for (idx, slot) in self.objects.iter().enumerate() {
+            if let Some(obj) = slot
+                && let ObjectKind::Closure(c) = &obj.kind
+                && !c.upvalues.is_empty()
+                && upvalue_ptrs.contains(&c.upvalues.as_ptr())
+            {
+                owners.push(GcRef::new(idx));
+            }
+        }
+        owners
+    }
+
     pub fn sweep(&mut self) -> usize {
         let mut freed = 0;
 
